@@ -211,10 +211,10 @@ def step (st : St) (line : String) : St × String :=
   | ["read", id] =>
     let line := match AL.get st.coll id with
       | none => "none"
-      | some d => "{\"id\":" ++ id ++ ",\"doc\":" ++ showData d ++ "}"
+      | some d => "found {\"id\":" ++ id ++ ",\"doc\":" ++ showData d ++ "}"
     let modelLine := match readById st.shard.pts id with
       | .ok none => "none"
-      | .ok (some (u, d)) => "{\"id\":" ++ u ++ ",\"doc\":" ++ showData d ++ "}"
+      | .ok (some (u, d)) => "found {\"id\":" ++ u ++ ",\"doc\":" ++ showData d ++ "}"
       | .error (.danglingNode n) => s!"error:dangling-node {n}"
     (st, if modelLine == line then line else line ++ " !!model-read-differs: " ++ modelLine)
   | _ => bad
